@@ -14,6 +14,7 @@ static int pend_retry[2];                 /* byte refused last time per producer
 static unsigned sched_r, sched_w;
 static long holds_seen, holds_with_input, releases_api, releases_event;
 static int hold_kind, hold_paths;
+static struct { int ci, type; } evq[32]; static int evq_n; static int ev_cur_ci = -1;     /* accepted events in acceptance order; the one whose unit is owed next */
 #define CHAIN_BUDGET 3
 
 void eng_default_profile(void)
@@ -29,6 +30,7 @@ static void on_phase(int code)
         if (code == 3) {
                 if (EV_WAITING <= 0) viol("C13", "dequeue-from-empty", "an event was dequeued although none was waiting");
                 else EV_WAITING--;
+                if (evq_n > 0) { ev_cur_ci = evq[0].ci; memmove(evq, evq + 1, sizeof evq[0] * (size_t)(evq_n - 1)); evq_n--; } else ev_cur_ci = -1;
                 if (EV_INPROGRESS) viol("C13", "dequeue-while-busy", "an event was dequeued while another one is in progress");
                 EV_INPROGRESS = true; chain_budget[FSM_U] = CHAIN_BUDGET;
         } else if (code == 4) {
@@ -80,6 +82,12 @@ static void on_unit(bool isA, bool raw, const char *text, size_t len, bool lead_
                 return;
         }
         CNT(isA ? "cmd_data_units" : "event_units");
+        if (!isA && text[0] != '~' && ev_cur_ci >= 0) {
+                /* units of the event producer must come in acceptance order: an automatically formatted event text starts with the name of the oldest accepted event's command */
+                const char *nm = W.cmd[ev_cur_ci]->name; size_t nl = strlen(nm);
+                if (strncmp(text, nm, nl) != 0 || text[nl] != '=') viol("C11", "event-unit-out-of-order", "event unit \"%.30s\" emitted where the oldest accepted event is for command \"%s\"", text, nm);
+                else CNT("event_units_checked_against_acceptance_order");
+        }
         if (owed_set[p]) {
                 if (strcmp(owed[p], text) != 0) viol("C11", "unit-differs-from-handler-text", "producer %c emitted \"%.40s\" but its handler handed back \"%.40s\"", isA ? 'A' : 'U', text, owed[p]);
                 owed_set[p] = false;
@@ -96,7 +104,7 @@ cat_status eng_trigger(int ci, cat_cmd_type t)
         bool room = EV_WAITING < QCAP;
         if (room && s != CAT_STATUS_OK) viol("C13", "refused-with-room", "trigger refused (%d) with %ld of %d waiting", (int)s, EV_WAITING, QCAP);
         if (!room && s != CAT_STATUS_ERROR_BUFFER_FULL) viol("C13", "accepted-when-full", "trigger returned %d with %ld of %d waiting", (int)s, EV_WAITING, QCAP);
-        if (s == CAT_STATUS_OK) { EV_WAITING++; CNT("events_accepted"); } else CNT("events_refused");
+        if (s == CAT_STATUS_OK) { EV_WAITING++; CNT("events_accepted"); if (evq_n < 32) { evq[evq_n].ci = ci; evq[evq_n].type = (int)t; evq_n++; } } else CNT("events_refused");
         return s;
 }
 static void maybe_trigger(void)
@@ -246,6 +254,7 @@ void eng_monitors_install(void)
 {
         ON_READ = on_read; ON_WRITE = on_write; ON_UNIT = on_unit; ON_PHASE = on_phase;
         POLICY = eng_policy; VPOLICY = eng_vpolicy;
+        evq_n = 0; ev_cur_ci = -1;
         HOLD_PHASE = 0; EV_WAITING = 0; EV_INPROGRESS = false; LINES_DONE = 0; line_nonblank = false; taint_hold = false;
         chain_budget[0] = chain_budget[1] = CHAIN_BUDGET; owed_set[0] = owed_set[1] = false; hold_statuses = 0; pend_retry[0] = pend_retry[1] = -1;
         holds_seen = holds_with_input = releases_api = releases_event = 0;
